@@ -415,7 +415,11 @@ def build_world(target: str | None, units: dict[str, Unit], repo: Repo, mutate=N
                     txt = mutate(txt)
                 parts.append(txt)
             else:
-                parts.append(render_stub(u, repo, log))
+                try:
+                    parts.append(render_stub(u, repo, log))
+                except AnchorLost as e:
+                    # the function no longer exists in /repo: no stub; a world that calls it will not compile (-> undecided)
+                    log.append(f"stub skipped, anchor lost: {e}")
         if impl:
             parts.append("}")
     parts.append("} // verus!\nfn main() {}\n")
